@@ -314,7 +314,8 @@ def finish(ctx: Ctx, started: float, seed: int) -> int:
         bad = sum(1 for i in ctx.instances if i.rule == rid and not i.ok)
         print(f"OK rule={rid} instances={n}" if bad == 0 else f"RULE rule={rid} instances={n} failing={bad}")
     for f in known_hits:
-        print(f"KNOWN-FINDING: property={prop} rule={f.rule} at {f.where} [{f.construct}] ({f.file}:{f.line}) {f.what}")
+        k = known_keys[f.key()]
+        print(f"KNOWN-FINDING: property={prop} {k.get('id', '')} rule={f.rule} at {f.where} [{f.construct}] ({f.file}:{f.line}): {k.get('what', f.what)}")
     scratch = ctx.repo.root.resolve() != REPO.resolve()
     outdir = VERIF / "out" / ("scratch-violations" if scratch else "violations") / prop
     for f in violations:
